@@ -258,7 +258,7 @@ def main(argv=None):
         reported += 1
 
     if errors:
-        print("HARNESS-ERROR (%d): %s" % (len(errors), errors[0][-1500:]), file=sys.stderr)
+        print("HARNESS-ERROR (%d): %s" % (len(errors), errors[0][:300] + " ... " + errors[0][-1200:]), file=sys.stderr)
         if rc == 0: rc = 2
 
     if not a.no_evidence:
